@@ -97,8 +97,9 @@ int main(int argc, char **argv) {
     else if (!strcmp(en, "big")) { char *v = malloc(5001); memset(v, 'v', 5000); v[5000] = 0; setenv("BIG", v, 1); setenv("A", "1", 1); }
     else if (!strcmp(en, "malformed")) { static char *ev[] = { "A=first", "NOEQUALSSIGN", "A=second", "=novalue_name", "EMPTY=", "EQ=a=b", "BIG=x", NULL }; environ = ev; }
     else if (!strcmp(en, "huge")) { for (int i = 0; i < 300; i++) { char k[32], v[64]; snprintf(k, sizeof k, "K%03d", i); memset(v, 'h', 30); v[30] = 0; setenv(k, v, 1); } }
-    if (atoi(kv(kvs, "sudo", "0"))) setenv("SUDO_USER", "sudoer", 1);
-    if (atoi(kv(kvs, "logname", "0"))) setenv("LOGNAME", "lognm", 1);
+    { int su = atoi(kv(kvs, "sudo", "0")), ln = atoi(kv(kvs, "logname", "0")); static char longname[4096];   /* 1 = a short name, N > 1 = a name of N bytes */
+      if (su == 1) setenv("SUDO_USER", "sudoer", 1); else if (su > 1 && su < 4096) { memset(longname, 's', su); longname[su] = 0; setenv("SUDO_USER", longname, 1); }
+      if (ln == 1) setenv("LOGNAME", "lognm", 1); else if (ln > 1 && ln < 4096) { memset(longname, 'n', ln); longname[ln] = 0; setenv("LOGNAME", longname, 1); } }
     setenv("TZ", kv(kvs, "tz", "UTC"), 1);
     { const char *pw = kv(kvs, "pwd", "none"); char c[PATH_MAX + 64], a[PATH_MAX + 128];
       if (strcmp(pw, "none") && getcwd(c, sizeof c)) {
